@@ -182,9 +182,11 @@ cdef class cyQM_template(cyQMBase):
         cdef Py_ssize_t length = irow.shape[0]
 
         cdef Py_ssize_t vi
+        cdef Py_ssize_t num_variables = self.num_variables()
         if self.variables._is_range():
-            if length > self.num_variables():
-                raise ValueError("variables must already exist")
+            for vi in range(length):
+                if not (0 <= irow[vi] < num_variables and 0 <= icol[vi] < num_variables):
+                    raise ValueError("variables must already exist")
 
             for vi in range(length):
                 self._add_quadratic(irow[vi], icol[vi], qdata[vi])
